@@ -159,17 +159,75 @@ class Obs(object):
     __slots__ = ("tokens", "status", "r")
 
 
-def run_pf(prog, d, timeout=20):
+def run_limited(cmd, timeout, max_out, cwd=None):
+    """core.run, but the child is killed as soon as it has written more than max_out bytes to stdout (a runaway
+    expansion is decided by its diverging output prefix, not by the clock).  -> (Result, truncated)"""
+    import select
+    import signal
+    import subprocess
+    import time
+    e = dict(os.environ)
+    e.update(core.SAN_ENV)
+    t0 = time.time()
+    errf = open(os.path.join(cwd, "stderr.txt"), "w+b")
+    try:
+        p = subprocess.Popen(cmd, stdin=subprocess.DEVNULL, stdout=subprocess.PIPE, stderr=errf, env=e, cwd=cwd,
+                             start_new_session=True)
+    except OSError as ex:
+        raise core.HarnessError("cannot start %s: %s" % (cmd[0], ex))
+    chunks = []
+    size = 0
+    truncated = timed_out = False
+    fd = p.stdout.fileno()
+    while True:
+        left = timeout - (time.time() - t0)
+        if left <= 0:
+            timed_out = True
+            break
+        rd, _, _ = select.select([fd], [], [], min(left, 1.0))
+        if not rd:
+            continue
+        buf = os.read(fd, 65536)
+        if not buf:
+            break
+        chunks.append(buf)
+        size += len(buf)
+        if size > max_out:
+            truncated = True
+            break
+    if truncated or timed_out:
+        try:
+            os.killpg(p.pid, signal.SIGKILL)
+        except OSError:
+            pass
+    p.stdout.close()
+    try:
+        p.wait(timeout=30)
+    except subprocess.TimeoutExpired:
+        raise core.HarnessError("child does not die")
+    errf.seek(0)
+    err = errf.read(200000).decode("utf-8", "replace")
+    errf.close()
+    rc = p.returncode
+    sig = -rc if rc is not None and rc < 0 else None
+    killed = truncated or timed_out
+    r = core.Result(rc if not killed else None, sig if not killed else None,
+                    b"".join(chunks).decode("utf-8", "replace"), err, timed_out, time.time() - t0)
+    return r, truncated
+
+
+def run_pf(prog, d, timeout=20, expect_len=0):
     p = os.path.join(d, "p.h")
     with open(p, "w") as f:
         f.write(mg.prog_text(prog))
     b = _b()
-    r = core.run([b.parse_file, "-E"] + ["-D" + x for x in mg.prog_defs(prog)] + [p], timeout=timeout, cwd=d)
+    r, truncated = run_limited([b.parse_file, "-E"] + ["-D" + x for x in mg.prog_defs(prog)] + [p], timeout,
+                               max_out=65536 + 40 * expect_len, cwd=d)
     o = Obs()
     o.r = r
     o.tokens = tokenize(r.out)
-    if r.timed_out:
-        o.status = "timeout"
+    if r.timed_out or truncated:
+        o.status = "timeout" if r.timed_out else "runaway"
         if o.tokens:
             o.tokens.pop()            # the last one may be cut
     elif r.died():
@@ -182,14 +240,14 @@ def run_pf(prog, d, timeout=20):
 
 
 def judge(prog, d, expected, timeout=20):
-    """-> (verdict, obs).  verdict: None (agrees) | 'mismatch' | 'died' | 'error-exit' | 'timeout-diverged' |
+    """-> (verdict, obs).  verdict: None (agrees) | 'mismatch' | 'died' | 'error-exit' | 'runaway' (diverging output prefix, killed) |
     'timeout' (inconclusive)"""
-    o = run_pf(prog, d, timeout)
+    o = run_pf(prog, d, timeout, len(expected))
     if o.status == "ok":
         return (None if o.tokens == expected else "mismatch"), o
-    if o.status == "timeout":
+    if o.status in ("timeout", "runaway"):
         if o.tokens != expected[:len(o.tokens)]:
-            return "timeout-diverged", o
+            return "runaway", o       # the prefix already emitted cannot become the expected stream
         return "timeout", o
     if o.status == "died":
         return "died", o
@@ -233,7 +291,7 @@ class Minimizer(object):
             exp, _ = _ref(prog)
             if exp is not None:
                 self.tests += 1
-                v, _o = judge(prog, self.d, exp, timeout=10)
+                v, _o = judge(prog, self.d, exp, timeout=3)
                 res = _same_class(v, self.want)
         self.cache[key] = res
         return res
@@ -330,8 +388,8 @@ def _same_class(v, want):
         return False
     if want in ("died",):
         return v == "died"
-    if want == "timeout-diverged":
-        return v in ("timeout-diverged", "mismatch")
+    if want == "runaway":
+        return v == "runaway"
     return v in ("mismatch", "error-exit") if want in ("mismatch", "error-exit") else v == want
 
 
@@ -479,6 +537,8 @@ def _analyse(res, prog, d, verdict, o, expected):
             key = "died:%s@%s:%s" % (o2.r.how(), "/".join(o2.r.frames(2)) or "?", signature(feats))
         elif v2 == "error-exit":
             key = "error-exit:" + signature(feats)
+        elif v2 == "runaway":
+            key = "runaway-expansion:" + signature(feats)
         else:
             key = "token-mismatch:" + signature(feats)
         if key in seen:
